@@ -465,6 +465,12 @@ def run(env, with_model=True):
         corr = [s for s in corr if s not in dropped]
         env.note("correspondence_sampling", {"tier": "quick", "heavy_positions_top_length": f"{len(drop) // 4} of {len(drop)}",
                                              "raw_top_length": f"{min(len(drop_raw), 1500)} of {len(drop_raw)}", "sources_compared": len(corr)})
+    if not env.thorough and len(corr) > 6000:
+        # quick tier budget: the seeds and the single-character variable forms always, the rest sampled
+        must = set(SEEDS) | set(var_single)
+        rest = [s for s in corr if s not in must]
+        corr = [s for s in corr if s in must] + env.rng.sample(rest, max(0, 6000 - len(must & set(corr))))
+        env.note("correspondence_quick_sample", {"sources_compared": len(corr)})
     cap = 90000
     if len(corr) > cap:
         # the Coq-side comparison is the expensive part: every position payload up to length
@@ -492,7 +498,7 @@ def run(env, with_model=True):
         lexcorr.check(env, lex_items, name="c18lex")
         phase["lexer_correspondence_s"] = round(time.time() - t0, 1)
         t0 = time.time()
-        check_dv(env, var_single + var_pair_corr + var_pos + rnd[: env.budget(200, 2000)] + gen[: env.budget(200, 2000)])
+        check_dv(env, var_single + var_pair_corr[: env.budget(500, 8000)] + var_pos + rnd[: env.budget(200, 2000)] + gen[: env.budget(200, 2000)])
         phase["dv_text_correspondence_s"] = round(time.time() - t0, 1)
     env.note("variable_name_inputs", {"single_character_forms": len(var_single), "pairs_over_letter_like": len(var_pair),
                                       "letter_like_characters": "".join(letter_like(cp)), "pairs_in_coq_correspondence": len(var_pair_corr),
